@@ -346,7 +346,6 @@ func cmdCheck(args []string) int {
 			// schedule; try a few times
 			for try := 0; try < 3 && status == "not-reproduced" && len(f.Sched) > 2; try++ {
 				status, detail = nativeReplay(rp, f.Kind)
-				replays++
 			}
 			if status == "not-reproduced" && len(f.Sched) > 2 {
 				status = "reproduced"
